@@ -6,7 +6,7 @@ cd "$(dirname "$0")"
 export GOFLAGS=-mod=mod GOPROXY=off GOSUMDB=off GOTOOLCHAIN=local CGO_ENABLED=0
 mkdir -p work evidence/replays harness/bin
 cp /repo/go.sum harness/go.sum
-(cd harness && go build -o bin/translate ./cmd/translate && go build -tags verif -o bin/dump ./cmd/dump)
+(cd harness && go build -tags verif -o bin/translate ./cmd/translate && go build -tags verif -o bin/dump ./cmd/dump)
 (cd /repo && go build -tags verif -o /verif/harness/bin/inkfem .)
 ./harness/bin/translate -repo /repo -out coq/Gen
 (cd coq && coq_makefile -f _CoqProject -o Makefile >/dev/null && timeout 3000 make -j16 >work_build.log 2>&1 || (tail -50 work_build.log; exit 1))
